@@ -125,12 +125,38 @@ func run(p *Property, tier, only string) int {
 				}
 			}()
 			p.Run(rc)
-			// guard census over the property's anchor files (from the given properties.jsonl)
-			if files := anchorFiles(vd, p.ID); len(files) > 0 {
-				rules.GC(rc, func(f string) bool { return files[f] }, 1)
+			rules.DowngradeRestructured(rc)
+			// The guard census GC (facts in front of every call compared with a reviewed reference)
+			// was withdrawn after the benign-change round: it reported every refactoring that moves
+			// or rewrites a guard (DESIGN section 4). Its four unique catches are now LG goals.
+			if os.Getenv("TCHECK_WITH_GC") != "" {
+				if files := anchorFiles(vd, p.ID); len(files) > 0 {
+					rules.GC(rc, func(f string) bool { return files[f] }, 1)
+				}
 			}
 		}()
 		rules.ReleaseProgram(prog)
+	}
+	if r := os.Getenv("TCHECK_SKIP_RULES"); r != "" {
+		// debugging aid: judge the tree without the named rules (comma-separated)
+		skip := map[string]bool{}
+		for _, x := range strings.Split(r, ",") {
+			skip[x] = true
+		}
+		for _, sk := range res.Sinks {
+			var keep []*core.Obligation
+			for _, o := range sk.Obs {
+				if !skip[o.Rule] {
+					keep = append(keep, o)
+				}
+			}
+			sk.Obs = keep
+			for id, ri := range sk.Rules {
+				if skip[id] {
+					ri.Floor = 0
+				}
+			}
+		}
 	}
 	if r := os.Getenv("TCHECK_ONLY_RULE"); r != "" {
 		// debugging aid: judge the tree by one rule only (floors disabled)
